@@ -16,6 +16,11 @@ CRATE = {**{f"C{i:02d}": "sl-oblivious" for i in (1, 2, 3, 4, 5, 6, 14, 19)}, "C
          "C09": "sl-verifiable-enc", "C10": "sl-verifiable-enc", **{f"C{i}": "sl-mpc-mate" for i in (12, 13, 15, 16, 17, 20)}}
 EXTRA = {"sl-verifiable-enc": ["--lib"], "sl-mpc-mate": ["--features", "simple-relay"]}
 ALSO = {"C01": ["C06"], "C20": ["C13"], "C15": ["C16"], "C16": ["C15"], "C03": ["C04"]}
+# round "h" = HARMLESS rewrites (the property still holds): the demo passes with and without the change and every check must stay quiet
+HARMLESS = R == "h"
+if HARMLESS:
+    ALSO = {"C15": ["C16", "C11"], "C20": ["C13"], "C19": ["C04"], "C07": ["C08", "C18"], "C03": ["C04", "C01"], "C05": ["C06", "C01"], "C18": ["C07", "C08"],
+            "C09": ["C10", "C11"], "C12": ["C11"], "C13": ["C20"], "C14": ["C05"], "C17": ["C11"]}
 
 
 def sh(cmd, cwd=None, env=None, timeout=3600):
@@ -62,7 +67,7 @@ for pid in IDS:
     sh("git diff -- crates > .seed.patch && git apply -R .seed.patch", cwd=wt)
     rc2, o2 = demo(wt, flags)
     sh("git apply .seed.patch", cwd=wt)
-    res["demo_with_change"] = "fails" if rc1 != 0 else "PASSES(!)"
+    res["demo_with_change"] = ("fails" if rc1 != 0 else "PASSES(!)") if not HARMLESS else ("passes" if rc1 == 0 else "FAILS(!): " + o1[-300:])
     res["demo_without_change"] = "passes" if rc2 == 0 else "FAILS(!): " + o2[-300:]
     res["demo_rustflags"] = flags
     # --- try against the checks
@@ -77,5 +82,8 @@ for pid in IDS:
     json.dump(res, open(f"{dst}/lead.json", "w"), indent=1)
     own = res["checks"][pid]
     verdict = "CAUGHT" if own["violations"] and not own["no_failing_input"] else ("NO-INPUT" if own["violations"] else "MISSED")
+    if HARMLESS:
+        alarms = [k for k, v in res["checks"].items() if v["violations"] or v["divergences"] is None]
+        verdict = "QUIET" if not alarms else "ALARM(" + ",".join(alarms) + ")"
     print(f"{pid}-{R}: confirm[{res['crate_tests_with_change'][:4]},{res['demo_with_change']},{res['demo_without_change'][:6]}] {verdict} " +
           " ".join(f"{k}:{v['divergences']}d/{v['pred_failures']}p" for k, v in res["checks"].items()), flush=True)
